@@ -260,7 +260,8 @@ _MSG = [("dup", re.compile(r"^Duplicate name '(.*)'$")),
         ("miss", re.compile(r"^No candidate for '(.*)'$")),
         ("amb", re.compile(r"^Ambiguous name '(.*)'$")),
         ("array", re.compile(r"^Cannot access member of array '(.*)'$")),
-        ("noncomp", re.compile(r"^Cannot access member of noncomposite field '(.*)'$"))]
+        ("noncomp", re.compile(r"^Cannot access member of noncomposite field '(.*)'$")),
+        ("modfield", re.compile(r"^Cannot use imported module '(.*)' as a field$"))]
 
 
 def real_errors(errors):
@@ -281,6 +282,11 @@ def real_errors(errors):
     return out
 
 
+def _note_loc(kind, loc):
+    """`ambiguous_name_error` reports the candidates with plain (non-synthetic) locations."""
+    return loc[:-1] if kind == "amb" and loc.endswith("*") else loc
+
+
 def model_errors_all(jerrs, L):
     """All model errors in order (the flat model's extra `Duplicate name 'this'` excluded)."""
     out = []
@@ -288,7 +294,7 @@ def model_errors_all(jerrs, L):
         if e[0] == "dup" and e[1] == "this":
             continue
         f, s, _syn = L.tab[e[2]]
-        out.append((e[0], e[1], f, s, tuple(sorted((L.tab[i][0], L.tab[i][1]) for i in e[3:]))))
+        out.append((e[0], e[1], f, s, tuple(sorted((L.tab[i][0], _note_loc(e[0], L.tab[i][1])) for i in e[3:]))))
     return out
 
 
@@ -299,8 +305,10 @@ def model_errors(jerrs, L):
         kind, name, loc = e[0], e[1], e[2]
         f, s, syn = L.tab[loc]
         notes = [L.tab[i] for i in e[3:]]
-        rec = (kind, name, f, s, tuple(sorted((n[0], n[1]) for n in notes)))
-        (hid if (syn or any(n[2] for n in notes)) else vis).append(rec)
+        rec = (kind, name, f, s, tuple(sorted((n[0], _note_loc(kind, n[1])) for n in notes)))
+        # (the candidates of an ambiguity are reported with plain locations since
+        # fixes/C12-hidden-ambiguity-in-anonymous-bits.patch: only the reference itself decides)
+        (hid if (syn or (kind != "amb" and any(n[2] for n in notes))) else vis).append(rec)
     return vis, hid
 
 
@@ -960,6 +968,8 @@ class Oracle:
         if h[0] != "ok":
             return (h[0], 0)
         kind, node = h[1], h[2]
+        if kind == "alias":
+            return ("module-as-field", 0)          # an import alias stands for a module, never for a field
         canons = [self.canon(kind, node)]
         nodes = [node]
         for i, n in enumerate(names[1:], 1):
@@ -1107,8 +1117,8 @@ class Gen:
             owner.subtypes.append(it)
             self.f("inline_" + k)
             return FNode(name, owner, "phys", ftype=it, abbr=abbr)
-        if x < 0.24 and owner.kind == "struct" and depth < self.max_depth and not owner.inline:
-            # (not inside an inline struct: known finding crash:synthetics.py:_add_anonymous_aliases)
+        if x < 0.24 and owner.kind == "struct" and depth < self.max_depth:
+            # (also inside an inline struct: repaired by fixes/C12-anonymous-bits-in-inline-struct.patch)
             k = self.anon_count.get(file, 0) + 1
             self.anon_count[file] = k
             it = TNode("<anon>", "bits", owner, file, inline=True, anon=k)
@@ -1130,6 +1140,8 @@ class Gen:
                     it.fields.append(FNode(nm, it, "phys", ftype=None, abbr=ab))
             owner.subtypes.append(it)
             self.f("anon_bits")
+            if owner.inline:
+                self.f("anon_bits_in_inline_struct")
             return FNode("emboss_reserved_anonymous_field_#%d" % k, owner, "anonfield", ftype=it)
         if x < 0.40:
             self.f("virtual")
@@ -1747,7 +1759,7 @@ def check_oracle(case, o, chk):
         if e[0] in ("name", "inline"):
             if e[2][0] in ("missing", "ambiguous"):
                 bad_refs[k] = e[2][0]
-        elif e[0] == "path" and e[2] == 0 and e[3][0] in ("missing", "ambiguous"):
+        elif e[0] == "path" and e[2] == 0 and e[3][0] in ("missing", "ambiguous", "module-as-field"):
             bad_refs[k] = e[3][0]
     if o["s1_errors"]:
         st("rejected_by_resolver")
@@ -1775,6 +1787,12 @@ def check_oracle(case, o, chk):
                     out.append((None, "%s %r at %s:%s but the scoping rules say %r for %r" % (kind, name, file, loc, want, e[1])))
                 else:
                     st("error_confirmed_" + kind)
+            elif kind == "modfield":
+                e = exp.get((file, start))
+                if e is None or e[0] != "path" or e[2] != 0 or e[3][0] != "module-as-field":
+                    out.append((None, "modfield %r at %s:%s but the scoping rules say %r" % (name, file, loc, e)))
+                else:
+                    st("error_confirmed_modfield")
             else:
                 out.append((None, "unexpected error from resolve_symbols: %r" % ((kind, name, file, loc),)))
         if not dups and not bad_refs:
@@ -1944,6 +1962,34 @@ CORPUS = [
      "two structures with the same field names", ("amb", "Pt")),
     ({"m.emb": "external Bcd:\n  [addressable_unit_size: 8]\nstruct Foo:\n  0 [+1]  Bcd  f\n"},
      "external shadowing a prelude external", ("amb", "Bcd")),
+    # repaired by fixes/C12-module-attribute-reference.patch (was crash:traverse_ir.py:invoke:AssertionError):
+    # names in module-level attributes are looked up with the module as current scope
+    ({"m.emb": "[requires: Foo.BAR]\nenum Foo:\n  BAR = 1\n"}, "name in a module-level attribute"),
+    ({"m.emb": "[(cpp) namespace: Nope.BAR]\nenum Foo:\n  BAR = 1\n"},
+     "undefined name in a module-level attribute", ("miss", "Nope")),
+    ({"m.emb": "[(cpp) namespace: UInt.x]\nstruct UInt:\n  0 [+1]  Int  x\n"},
+     "ambiguous name in a module-level attribute", ("amb", "UInt")),
+    # repaired by fixes/C12-import-alias-as-value.patch (was crash:dependency_checker.py:strong_connect:KeyError):
+    # an import alias used as a value is bound to the module and rejected
+    ({"m.emb": 'import "imp.emb" as imp\nstruct Foo:\n  0 [+1]  UInt  x\n  1 [+imp]  UInt  y\n',
+      "imp.emb": "struct Baz:\n  0 [+1]  UInt  q\n"}, "import alias used as a value", ("modfield", "imp")),
+    ({"m.emb": 'import "imp.emb" as imp\nstruct Foo:\n  0 [+1]  UInt  x\n  1 [+imp.x]  UInt  y\n  let v = imp\n',
+      "imp.emb": "struct Baz:\n  0 [+1]  UInt  q\n"}, "import alias used as a structure / renamed", ("modfield", "imp")),
+    # repaired by fixes/C12-anonymous-bits-in-inline-struct.patch (was
+    # crash:synthetics.py:_add_anonymous_aliases:AssertionError): the anonymous type is looked up where
+    # module_ir puts it (C12_inline_placing: in the nearest type written as a definition)
+    ({"m.emb": "struct Foo:\n  0 [+4]  struct  bar:\n    0 [+1]  bits:\n      0 [+1]  Flag  xx\n"},
+     "anonymous bits directly inside an inline struct"),
+    ({"m.emb": "struct Foo:\n  0 [+2]  struct  bar:\n    0 [+1]  bits:\n      0 [+1]  Flag  xx\n    1 [+1]  struct  baz:\n"
+               "      0 [+1]  bits:\n        0 [+1]  Flag  yy\n        1 [+yy ? 1 : 2]  UInt  zz\n  let v = bar.baz.yy\n  let w = bar.xx\n"},
+     "anonymous bits two inline structs deep, aliases used from outside"),
+    # repaired by fixes/C12-hidden-ambiguity-in-anonymous-bits.patch (was resolver-errors-all-hidden-as-synthetic)
+    ({"m.emb": 'import "imp.emb" as foo\nstruct Xyz:\n  0 [+1]  bits:\n    0 [+4]  UInt  foo\n    4 [+foo]  UInt  baz\n',
+      "imp.emb": "struct Baz:\n  0 [+1]  UInt  q\n"},
+     "ambiguity whose candidate is a name inside an anonymous bits", ("amb", "foo")),
+    ({"m.emb": 'import "imp.emb" as foo\nstruct Xyz:\n  0 [+1]  bits:\n    0 [+4]  UInt  fooo (foo)\n    4 [+foo]  UInt  baz\n',
+      "imp.emb": "struct Baz:\n  0 [+1]  UInt  q\n"},
+     "ambiguity whose candidate is an abbreviation inside an anonymous bits", ("amb", "foo")),
     # fixed by 22b80e8 (was hang:symbol_resolver.py:_resolve_field_reference); fourth element: what
     # resolve_field_references must report (a renaming that leads back to itself names no field)
     ({"m.emb": "struct Foo:\n  0 [+1]  Foo  f\n  let g = f.g\n  let h = g.x\n"},
@@ -1988,18 +2034,8 @@ RECURSION_KEY = "crash:symbol_resolver.py:_resolve_field_reference:RecursionErro
 
 # pinned inputs of known findings: (key, files, stage)
 FINDING_INPUTS = {
-    "crash:dependency_checker.py:strong_connect:KeyError":
-        {"m.emb": 'import "imp.emb" as imp\nstruct Foo:\n  0 [+1]  UInt  x\n  1 [+imp]  UInt  y\n',
-         "imp.emb": "struct Baz:\n  0 [+1]  UInt  q\n"},
-    "crash:traverse_ir.py:invoke:AssertionError":
-        {"m.emb": "[requires: Foo.BAR]\nenum Foo:\n  BAR = 1\n"},
-    "crash:synthetics.py:_add_anonymous_aliases:AssertionError":
-        {"m.emb": "struct Foo:\n  0 [+4]  struct  bar:\n    0 [+1]  bits:\n      0 [+1]  Flag  xx\n"},
     RECURSION_KEY:
         {"m.emb": "struct Foo:\n  0 [+1]  Foo  f\n  let g = f.g.x\n"},
-    HIDDEN_KEY:
-        {"m.emb": 'import "imp.emb" as foo\nstruct Xyz:\n  0 [+1]  bits:\n    0 [+4]  UInt  foo\n    4 [+foo]  UInt  baz\n',
-         "imp.emb": "struct Baz:\n  0 [+1]  UInt  q\n"},
 }
 
 
